@@ -236,6 +236,8 @@ def run(rep):
             sites.append({"name": w[1], "chk": w[2] == "chk=1", "eff": w[3] == "eff=1", "script": w[4],
                           "spec": w[5][5:], "mech": w[6][5:]})
     holes = [s["name"] for s in sites if not s["chk"]]
+    # executors that accept but do not write (s.m++ loses its result for every struct - not a const matter): never generated
+    noeff = [s["name"] for s in sites if not s["eff"]]
     for h in holes:
         if h not in fmap:
             rep.violation("site", {"site": h}, "model policy lacks test %s but no finding records it" % h, True)
@@ -363,9 +365,9 @@ def run(rep):
         for it in json.load(open(corpus)):
             strict.append((it["script"], tuple(it.get("globals", ()))))
     for k in range(n_strict):
-        strict.append(gen_c09.random_script(rng_for(seed, "c09-strict", k), avoid=holes))
+        strict.append(gen_c09.random_script(rng_for(seed, "c09-strict", k), avoid=holes + noeff))
     for k in range(n_free):
-        free.append(gen_c09.random_script(rng_for(seed, "c09-free", k)))
+        free.append(gen_c09.random_script(rng_for(seed, "c09-free", k), avoid=noeff))
     sstat, fstat = collections.Counter(), collections.Counter()
     rejecting_sites = collections.Counter()
     CH = 3000
